@@ -3,6 +3,7 @@ import Driver.Tracer
 import Driver.Journal
 import Driver.Precompile
 import Driver.Memory
+import Driver.Frame
 /-
   Model driver: one input line ↦ one output line (see DESIGN.md §2.6).
 -/
@@ -11,6 +12,7 @@ open Artela Artela.Codec
 structure DState where
   tr : Tracer := {}
   j : Driver.JState := {}
+  f : FState := {}
 
 def dispatch (st : DState) (toks : List String) : DState × String :=
   match toks with
@@ -19,7 +21,17 @@ def dispatch (st : DState) (toks : List String) : DState × String :=
   | "T" :: rest =>
     let (tr, out) := Driver.tracerOp st.tr rest
     ({ st with tr := tr }, out)
-  | "Q" :: rest => (st, Driver.tracerQuery st.tr rest)
+  | "F" :: rest =>
+    match Driver.parseFEvent rest with
+    | some ev =>
+      -- the frame machine owns the tracer while frame events are replayed
+      let f := Frame.step { st.f with tracer := st.tr } ev
+      ({ st with f := f, tr := f.tracer }, "ok")
+    | none => (st, "bad-op")
+  | "Q" :: rest =>
+    match Driver.frameQuery st.f rest with
+    | some out => (st, out)
+    | none => (st, Driver.tracerQuery st.tr rest)
   | "JE" :: rest =>
     match Driver.journalEnv rest with
     | some j => ({ st with j := j }, "ok")
@@ -45,6 +57,8 @@ def dispatch (st : DState) (toks : List String) : DState × String :=
   | ["S", "parent-known"] => (st, "ok")
   | ["S", "balshadow"] => (st, "match")
   | ["S", "static-same"] => (st, "same")
+  | ["S", "atomic"] => (st, "ok")
+  | ["S", "wf"] => (st, "ok")
   | ["S", "attribution", _] => (st, "ok")
   -- C20 specification: every instruction's work stays within the fixed multiple of its fee
   | ["S", "workbound", _] => (st, "ok")
